@@ -14,11 +14,16 @@ type Sx struct {
 	IsL  bool
 }
 
-func A(s string) *Sx        { return &Sx{Atom: s} }
-func L(xs ...*Sx) *Sx       { return &Sx{List: xs, IsL: true} }
-func I(n int) *Sx           { return A(strconv.Itoa(n)) }
-func X(b []byte) *Sx        { return A("x" + hex.EncodeToString(b)) }
-func B(b bool) *Sx          { if b { return A("1") }; return A("0") }
+func A(s string) *Sx  { return &Sx{Atom: s} }
+func L(xs ...*Sx) *Sx { return &Sx{List: xs, IsL: true} }
+func I(n int) *Sx     { return A(strconv.Itoa(n)) }
+func X(b []byte) *Sx  { return A("x" + hex.EncodeToString(b)) }
+func B(b bool) *Sx {
+	if b {
+		return A("1")
+	}
+	return A("0")
+}
 
 func (s *Sx) String() string {
 	if !s.IsL {
